@@ -1,13 +1,13 @@
 #!/usr/bin/env python3-vt
 """Stand-alone runner of one part module (development aid; the registered entry point is /verif/check).
-usage: run_part.py C02 [--only SUBSTR] [--tier quick|thorough] [--replay PATH] [--no-evidence]"""
+usage: run_part.py C02 [--only SUBSTR] [--tier quick|thorough] [--replay PATH] [--part S2]"""
 import sys, os, argparse, importlib.util, json
 sys.path.insert(0, "/verif/engines/pysmt")
 from vf import core
 
 
-def load(pid):
-    path = os.path.join(core.VERIF, "specs", "parts", f"{pid}_S.py")
+def load(pid, part="S"):
+    path = os.path.join(core.VERIF, "specs", "parts", f"{pid}_{part}.py")
     spec = importlib.util.spec_from_file_location(f"part_{pid}_S", path)
     mod = importlib.util.module_from_spec(spec)
     spec.loader.exec_module(mod)
@@ -19,10 +19,11 @@ ap.add_argument("pid")
 ap.add_argument("--only", default=None)
 ap.add_argument("--tier", default=None)
 ap.add_argument("--replay", default=None)
+ap.add_argument("--part", default="S")
 a = ap.parse_args()
 if a.tier:
     os.environ["VERIF_TIER"] = a.tier
-mod = load(a.pid)
+mod = load(a.pid, a.part)
 if a.replay:
     r = json.load(open(a.replay))
     sys.exit(0 if mod.replay(r) else 1)
